@@ -26,6 +26,8 @@ type encoder struct {
 	bvMode  bool
 	safeAll bool
 	// frame checking (root contract has an explicit modifies clause)
+	assertHit   map[int]bool
+	anchorsSeen []string
 	frameCheck bool
 	declMods   []declMod
 }
@@ -92,6 +94,7 @@ type frame struct {
 	closures map[ssa.Value]*ssa.MakeClosure
 	loopOrd  map[*ssa.BasicBlock]int
 	entryArgs []Term
+	callSites map[string][]ssa.Instruction
 	mapKV     *[2]tv
 	lastLoadHW string
 	lastLoadBase string
@@ -398,6 +401,13 @@ func (e *encoder) zeroValue(t types.Type) Term {
 		return Term{"0", SInt}
 	case *types.Struct:
 		name := "zero!" + typeKey(t)
+		if opaqueTypes[typeKey(t)] {
+			if typeKey(t) == "time.Time" {
+				return Term{"time_zero", SV}
+			}
+			vc.declConst(name, "V")
+			return Term{sym(name), SV}
+		}
 		if !vc.declared[name] {
 			vc.declConst(name, "V")
 			for i := 0; i < u.NumFields(); i++ {
@@ -479,8 +489,15 @@ func deref(t types.Type) types.Type {
 	return t
 }
 
+// opaqueTypes are struct types treated as scalar values (one V cell): their
+// fields are never inspected by the code under contract (time.Time, ...).
+var opaqueTypes = map[string]bool{}
+
 func isStruct(t types.Type) bool {
 	_, ok := t.Underlying().(*types.Struct)
+	if ok && opaqueTypes[types.TypeString(t, nil)] {
+		return false
+	}
 	return ok
 }
 
@@ -639,7 +656,7 @@ func (fr *frame) storeStruct(ptr Term, t types.Type, val Term, st *State) {
 // cellsOf lists the (key, index) pairs occupied by an object of type t at ptr.
 func (fr *frame) cellsOf(ptr Term, t types.Type) []privCell {
 	vc := fr.vc()
-	if su, ok := t.Underlying().(*types.Struct); ok {
+	if su, ok := t.Underlying().(*types.Struct); ok && isStruct(t) {
 		var out []privCell
 		for i := 0; i < su.NumFields(); i++ {
 			f := su.Field(i)
@@ -666,7 +683,7 @@ func (fr *frame) alloc(t types.Type, st *State) Term {
 
 func (fr *frame) zeroInit(ptr Term, t types.Type, st *State) {
 	vc := fr.vc()
-	if su, ok := t.Underlying().(*types.Struct); ok {
+	if su, ok := t.Underlying().(*types.Struct); ok && isStruct(t) {
 		for i := 0; i < su.NumFields(); i++ {
 			f := su.Field(i)
 			if isStruct(f.Type()) {
